@@ -11,6 +11,8 @@ Exhaustive over the option table extracted from the ProgramOptions constructor:
  R4  substituted values: where the writer replaces an option's value by a constant under
      condition W and main uses the option under condition U, W implies not U;
  R5  precision: floating-point values are written with max_digits10 digits;
+ R7  the writer saves the variables map while the run uses the bound fields: every change of the
+     map in parse() is followed by notify() before parse() returns true;
  R6  the save call precedes the creation of the results file and the simulation loop on
      every path that reaches them.
 """
@@ -291,5 +293,12 @@ def run(chk, prog):
     for b, i, n in svs:
         a = A.show(n["args"][0]).replace(" ", "")
         chk.check("ofname" in a and ".cfg" in a, "R6", A.loc(mainf, n), "saved next to the results: %s" % a, "main:cfg-name:%s" % a)
+    # ---- R7: what is saved (the map) is what the run used (the bound fields) --------------------------------
+    pfn, muts = O.vm_mutations(prog)
+    chk.used(pfn)
+    A.require(len(muts) >= 3, "parse: changes of the variables map not found")
+    for n, ok in muts:
+        chk.check(ok, "R7", A.loc(pfn, n), "map change `%s` is notified before parse() returns true: the saved value is the value the run used"
+                  % A.show(n)[:70].replace("\n", " "), "parse:unnotified:%s" % A.show(n)[:50].replace(" ", ""))
     chk.notes.append("C13: option table (%d declarations) x writer type chain x skip list x re-readability, substituted-value "
                      "implication, precision, ordering. Exhaustive over the option table. Not decided: boost's parser." % len(t.options))
